@@ -64,15 +64,15 @@ func genVestingWalk(r *rand.Rand, n int) []Step {
 	return st
 }
 
-var oracleAssets = []string{"ETH", "ETHZ", "ET", "ETHelys", "ETHe", "WBTC", "WBTC.e", "ATOM"}
-var oracleSources = []string{"elys", "elys", "band", "Helys", "x", "lys", "elysium", "binance"}
+var oracleAssets = []string{"ETH", "ETHZ", "ETHel", "ETHelys", "ETHe", "WBTC", "WBTC.e", "ATOM"}
+var oracleSources = []string{"elys", "elys", "band", "ys", "x", "lys", "elysium", "binance"}
 
 func genOracleWalk(r *rand.Rand, n int) []Step {
 	var st []Step
 	px := func() string { return fmt.Sprintf("%d.%02d", 1+r.Intn(3000), r.Intn(100)) }
 	if genIndex%8 == 0 {
 		// scripted corner: two (asset, source) pairs with the same concatenation fed in one block, then looked up and expired
-		st = append(st, Step{"a": "feed", "u": "feeder", "asset": "ETH", "src": "elys", "px": px()}, Step{"a": "feed", "u": "feeder", "asset": "ET", "src": "Helys", "px": px()},
+		st = append(st, Step{"a": "feed", "u": "feeder", "asset": "ETH", "src": "elys", "px": px()}, Step{"a": "feed", "u": "feeder", "asset": "ETHe", "src": "lys", "px": px()},
 			Step{"a": "block", "dt": float64(5)}, Step{"a": "feed", "u": "feeder", "asset": "ETHZ", "src": "band", "px": px()}, Step{"a": "block", "dt": float64(30)})
 	}
 	for i := 0; i < n; i++ {
